@@ -109,7 +109,7 @@ func emittedOf(w *core.Walked) []string {
 // ---------------------------------------------------------------- C05
 
 func genWalk(t *rapid.T) WalkCase {
-	return genWalkWith(t, sm.SpecOpts{Deterministic: true, NativeToo: true, Fail: 2, GuardFail: 1, Emit: true, UserErrorNode: true, ArrayVar: true, Lively: rapid.IntRange(0, 3).Draw(t, "lively") > 0})
+	return genWalkWith(t, sm.SpecOpts{Deterministic: true, NativeToo: true, Fail: 2, GuardFail: 1, Emit: true, UserErrorNode: true, ArrayVar: true, Ext: true, Lively: rapid.IntRange(0, 3).Draw(t, "lively") > 0})
 }
 
 func checkWalk(c WalkCase) (v ev.Verdict) {
